@@ -15,6 +15,9 @@ pub struct Space {
     pub max_nodes: usize,
     /// restrict tracking masks to these (None = all 2^leaves)
     pub masks: Option<Vec<u32>>,
+    /// also explore (a) one operand use going through a temporary `.clone().untracked()`, and
+    /// (b) every ordered pair of passes (two roots, no seed), for programs of up to this many nodes
+    pub deviations_upto: usize,
 }
 
 pub fn core_ops() -> Vec<OpK> {
@@ -39,6 +42,7 @@ pub fn full_ops() -> Vec<OpK> {
         OpK::Neg,
         OpK::Scale(-2.0),
         OpK::Powf(2.0),
+        OpK::Powf(3.0),
         OpK::Relu,
         OpK::Exp,
         OpK::Ln,
@@ -59,17 +63,17 @@ pub fn full_ops() -> Vec<OpK> {
 pub fn spaces(tier: Tier, var: u64) -> Vec<Space> {
     match tier {
         Tier::Quick => vec![
-            Space { name: "same-shape/core", leaves: same_shape_pool(var), ops: core_ops(), max_nodes: 3, masks: None },
-            Space { name: "broadcast/full", leaves: broadcast_pool(var), ops: full_ops(), max_nodes: 2, masks: Some(vec![0b1111, 0b0001, 0b0110, 0b1010, 0b0101]) },
-            Space { name: "same-shape/zero", leaves: same_shape_pool(var), ops: zero_ops(), max_nodes: 3, masks: Some(vec![0b111, 0b011, 0b101]) },
-            Space { name: "image/conv", leaves: image_pool(var), ops: image_ops(), max_nodes: 2, masks: Some(vec![0b1111, 0b0110, 0b1001]) },
+            Space { name: "same-shape/core", leaves: same_shape_pool(var), ops: core_ops(), max_nodes: 3, masks: None, deviations_upto: 2 },
+            Space { name: "broadcast/full", leaves: broadcast_pool(var), ops: full_ops(), max_nodes: 2, masks: Some(vec![0b1111, 0b0001, 0b0110, 0b1010, 0b0101]), deviations_upto: 0 },
+            Space { name: "same-shape/zero", leaves: same_shape_pool(var), ops: zero_ops(), max_nodes: 3, masks: Some(vec![0b111, 0b011, 0b101]), deviations_upto: 0 },
+            Space { name: "image/conv", leaves: image_pool(var), ops: image_ops(), max_nodes: 2, masks: Some(vec![0b1111, 0b0110, 0b1001]), deviations_upto: 0 },
         ],
         Tier::Thorough => vec![
-            Space { name: "same-shape/core", leaves: same_shape_pool(var), ops: core_ops(), max_nodes: 4, masks: Some(vec![0b111, 0b011, 0b101, 0b110, 0b001]) },
-            Space { name: "same-shape/core3", leaves: same_shape_pool(var), ops: core_ops(), max_nodes: 3, masks: None },
-            Space { name: "broadcast/full", leaves: broadcast_pool(var), ops: full_ops(), max_nodes: 2, masks: None },
-            Space { name: "same-shape/zero", leaves: same_shape_pool(var), ops: zero_ops(), max_nodes: 3, masks: None },
-            Space { name: "image/conv", leaves: image_pool(var), ops: image_ops(), max_nodes: 3, masks: None },
+            Space { name: "same-shape/core", leaves: same_shape_pool(var), ops: core_ops(), max_nodes: 4, masks: Some(vec![0b111, 0b011, 0b101, 0b110, 0b001]), deviations_upto: 0 },
+            Space { name: "same-shape/core3", leaves: same_shape_pool(var), ops: core_ops(), max_nodes: 3, masks: None, deviations_upto: 3 },
+            Space { name: "broadcast/full", leaves: broadcast_pool(var), ops: full_ops(), max_nodes: 2, masks: None, deviations_upto: 0 },
+            Space { name: "same-shape/zero", leaves: same_shape_pool(var), ops: zero_ops(), max_nodes: 3, masks: None, deviations_upto: 0 },
+            Space { name: "image/conv", leaves: image_pool(var), ops: image_ops(), max_nodes: 3, masks: None, deviations_upto: 0 },
         ],
     }
 }
@@ -92,6 +96,42 @@ pub fn explore_space(opts: &Opts, sp: &Space, total: &mut Local, stats_out: &mut
             l.states += 1;
             for &m in &masks {
                 let mask: Vec<bool> = (0..nl).map(|k| m & (1 << k) != 0).collect();
+                // deviations: one frozen operand use; every ordered pair of passes
+                if p.nodes.len() <= sp.deviations_upto {
+                    let t = p.tracked(&mask);
+                    let mut variants: Vec<Program> = Vec::new();
+                    for (k, n) in p.nodes.iter().enumerate() {
+                        for (pos, &a) in n.args.iter().enumerate() {
+                            if t[a] {
+                                let mut q = p.clone();
+                                q.frozen.push((k, pos));
+                                variants.push(q);
+                            }
+                        }
+                    }
+                    for q in &variants {
+                        for root in q.nl()..q.nv() {
+                            let passes = vec![Pass { root, seed: None }];
+                            let case = || format!("{} mask={:0w$b} {}", q.describe(), m, describe_passes(&passes), w = nl).replace(' ', "");
+                            if !l.want(&case) {
+                                continue;
+                            }
+                            let cfg = CheckCfg { sub: "frozen-use", intermediates: true, values: true };
+                            check_program(q, &mask, &passes, &cfg, l, &case);
+                        }
+                    }
+                    for r1 in p.nl()..p.nv() {
+                        for r2 in p.nl()..p.nv() {
+                            let passes = vec![Pass { root: r1, seed: None }, Pass { root: r2, seed: None }];
+                            let case = || format!("{} mask={:0w$b} {}", p.describe(), m, describe_passes(&passes), w = nl).replace(' ', "");
+                            if !l.want(&case) {
+                                continue;
+                            }
+                            let cfg = CheckCfg { sub: "pass-pair", intermediates: true, values: false };
+                            check_program(p, &mask, &passes, &cfg, l, &case);
+                        }
+                    }
+                }
                 for root in p.nl()..p.nv() {
                     let out_n: usize = match crate::prog::eval_ref(p, &mask, None) {
                         Ok(b) => b[root].len(),
@@ -137,7 +177,7 @@ pub fn explore(opts: &Opts) -> Explored {
     }
     Explored {
         local: total,
-        bounds: json!({"spaces": stats, "roots": "every operation node", "seeds": ["ones (omitted)", "generic", "all zeros"]}),
+        bounds: json!({"spaces": stats, "roots": "every operation node", "deviations": "for the core space up to the stated node count: one operand use through a temporary .clone().untracked(), and every ordered pair of passes", "seeds": ["ones (omitted)", "generic", "all zeros"]}),
         rule: "every expression DAG with at most n operation nodes over the alphabet (operands range over all existing values: sharing, diamonds, self-products, fan-out) x tracking masks of the leaves x every op node as root x {no seed, generic seed}; values, gradient presence, gradient dimensions and gradient values of every leaf and every op node against the forward-mode reference".into(),
         exhaustive: true,
         assumptions: vec![
